@@ -259,3 +259,57 @@ Definition credited (tok a : Z) (ops : list rop) : Z :=
                       | Collect _ => 0 end) ops).
 Definition minted_of (tok a : Z) (ms : list (Z * (Z * Z))) : Z :=
   zsum (map (fun m => if (fst m =? a) && (fst (snd m) =? tok) then snd (snd m) else 0) ms).
+
+(* ------------------------------------------------------------------ liquidity stake rewards (after the bridge-and-liquidity spork)
+   computeLiquidityStakeRewardsForEpoch. Token standards are abstract identifiers. *)
+
+Record ltuple := mkLtuple { lt_token : Z; lt_znn_pct : Z; lt_qsr_pct : Z }.                 (* definition.TokenTuple *)
+Record lentry := mkLentry { le_token : Z; le_start : Z; le_revoke : Z; le_wamount : Z; le_addr : Z }.  (* LiquidityStakeEntry *)
+Definition lentry_w (s e : Z) (x : lentry) : Z := getWeightedLiquidityStake s e (le_start x) (le_revoke x) (le_wamount x).
+
+(* znnRewards / qsrRewards: maps filled in the order of TokenTuples, a later tuple of the same token overrides *)
+Definition tuple_of (tok : Z) (ts : list ltuple) : option ltuple := find (fun t => lt_token t =? tok) (rev ts).
+(* cumulatedStake[token] *)
+Definition cum_of (s e tok : Z) (l : list lentry) : Z :=
+  zsum (map (lentry_w s e) (filter (fun x => le_token x =? tok) l)).
+
+Record liq_result := mkLiqResult {
+  lq_credits : list (Z * (Z * Z));     (* addReward calls: address, znn, qsr *)
+  lq_burn : Z * Z;                     (* additional reward taken from the contract's balance and burned *)
+  lq_mint : Z * Z;                     (* minted to the liquidity contract itself *)
+  lq_left : list lentry                (* stake entries that remain stored *)
+}.
+
+(* does this entry take part in the distribution (none of the `continue`s) *)
+Definition lentry_pays (s e : Z) (ts : list ltuple) (l : list lentry) (x : lentry) : bool :=
+  match tuple_of (le_token x) ts with
+  | None => false
+  | Some _ => negb (Z.sgn (cum_of s e (le_token x) l) =? 0)
+  end.
+
+Definition liq_stake_rewards (epoch s e : Z) (halted : bool) (bal_z bal_q extra_z extra_q : Z)
+           (ts : list ltuple) (l : list lentry) : res (outcome liq_result) :=
+  bind (LiquidityRewardForEpoch epoch) (fun t =>
+    if halted then Ok (Done (mkLiqResult [] (0, 0) t l))
+    else
+      let take := negb (bal_z <? extra_z) && negb (bal_q <? extra_q) in
+      let bz := if take && (0 <? extra_z) then extra_z else 0 in
+      let bq := if take && (0 <? extra_q) then extra_q else 0 in
+      let tz := fst t + bz in
+      let tq := snd t + bq in
+      let credits := flat_map (fun x =>
+            match tuple_of (le_token x) ts with
+            | None => []
+            | Some tu =>
+              let cum := cum_of s e (le_token x) l in
+              if Z.sgn cum =? 0 then []
+              else let w := lentry_w s e x in
+                   [(le_addr x, (Z.quot (bigDiv (tz * lt_znn_pct tu) LiquidityZnnTotalPercentages * w) cum,
+                                 Z.quot (bigDiv (tq * lt_qsr_pct tu) LiquidityQsrTotalPercentages * w) cum))]
+            end) l in
+      let fz := zsum (map (fun c => fst (snd c)) credits) in
+      let fq := zsum (map (fun c => snd (snd c)) credits) in
+      if (tz <? fz) || (tq <? fq) then Ok Failed                    (* ErrInvalidRewards *)
+      else Ok (Done (mkLiqResult credits (bz, bq)
+                       ((if fz <? tz then tz - fz else 0), (if fq <? tq then tq - fq else 0))
+                       (filter (fun x => negb (lentry_pays s e ts l x && negb (le_revoke x =? 0) && (le_revoke x <? e))) l)))).
